@@ -180,6 +180,13 @@ class SigHarness:
         for i in named:
             f6 = ic.require(eval("lambda p{0}: H.rec('prebm', {0}, p{0})".format(i), ns6))(f6)
         self.f6 = f6
+        # f7: the coroutine-function twin of the preconditions of f1 (the async wrapper resolves the call on its own)
+        ns7 = {"D": self.D, "H": self}
+        exec(sig_source(sig, body, True), ns7)  # noqa
+        f7 = ns7["f"]
+        for i in named:
+            f7 = ic.require(eval("lambda p{0}: H.rec('pre_async', {0}, p{0})".format(i), ns7))(f7)
+        self.f7 = f7
         # f3: a condition asks for a name the function does not have
         ns3 = {"D": self.D, "H": self}
         exec(sig_source(sig, body), ns3)  # noqa
@@ -297,6 +304,18 @@ def _replay_vectors(res: Any, vectors: List[dict], ic: Any) -> Dict[str, int]:
             if out is not h.RESULT:
                 res.violation("args.call_rejected", "{} npos={} kws={}: result {!r} exc {!r}".format(head, npos, kws, out, exc),
                               {"signature": "args.call_rejected", "sig": sig, "npos": npos, "kws": kws})
+            # the coroutine-function twin: its preconditions see what the body received as well
+            pos7, kw7, (out7, exc7) = h.call(h.f7, npos, kws)
+            for i in h.named:
+                tagk, idx = v["vals"][i - 1]
+                want = pos7[idx - 1] if tagk == "P" else (kw7["p{}".format(idx)] if tagk == "K" else h.D[idx])
+                stats["values_compared"] += 1
+                if h.seen.get(("pre_async", i), "<not evaluated>") is not want:
+                    res.violation("args.contract_seen",
+                                  "async {} called with {} positionals and keywords {}: the precondition for parameter p{} "
+                                  "saw {!r}".format(head, npos, kws, i, h.seen.get(("pre_async", i), "<not evaluated>")),
+                                  {"signature": "args.contract_seen", "sig": sig, "npos": npos, "kws": kws, "param": i,
+                                   "role": "pre_async"})
             # error factory
             pos2, kw2, (out2, exc2) = h.call(h.f2, npos, kws)
             if not isinstance(exc2, h.errcls):
